@@ -579,9 +579,13 @@ def validate_traces(chk, records):
             ok += len(recs)
         else:
             m = re.findall(r'REJECTED trace", (\d+), "at event", (\d+)', r.out)
-            if r.violated or m or "AllAccepted" in r.out:
-                chk.violation(f"C05:{name}:trace-rejected", f"real execution is not a behaviour of Mailbox.tla "
-                              f"({r.violated or m})", dict(cfg=c, traces=recs[:2]))
+            if r.violated and r.violated not in ("AllAccepted", "Progress"):
+                # a P-level invariant (InOrder, CapInv, NoError) fails in a state the real mailbox went through
+                chk.violation(f"C05:{name}:{r.violated}-along-real-trace", f"{r.violated} is violated along a recorded execution of the real "
+                              f"mailbox ({name})", dict(cfg=c, traces=recs[:2]))
+            elif r.violated or m or "AllAccepted" in r.out:
+                # internal state differs from the I-level model: drift, not a verdict (the P-level judgement of the same runs decides)
+                chk.drift.append(dict(cfg=name, kind="real execution is not a behaviour of Mailbox.tla", detail=str(r.violated or m)[:300]))
             else:
                 raise V.MachineryError("trace validation failed to run: " + r.out[-2000:])
     return ok
